@@ -766,13 +766,14 @@ def shrink_candidates(c):
 MANIFEST_TEXT = ('Machine-checked proof (Coq, no axioms) over an executable model of the Solomon, Li&Lim and TSPLIB readers on tokenised lines: '
                  'for every well-formed abstract instance, parsing its printed text yields exactly its customers (ids, demands, windows, service '
                  'times), depot, fleet size, capacity and a duplicate-free coordinate index whose entries are the customers\' coordinates '
-                 '(parse_print_solomon / tsplib for every hash-iteration order; Li&Lim for every file layout, up to the sub-job id/demand fields, '
-                 'which the real code drops: _partial + _refuted); rounded distances are characterised by (2r-1)^2 <= 4s < (2r+1)^2; the '
+                 '(parse_print_solomon / tsplib for every hash-iteration order; Li&Lim with ids and signed demands of the pairs for every file '
+                 'layout that keeps pickups in request order); rounded distances are characterised by (2r-1)^2 <= 4s < (2r+1)^2; the '
                  'initial-solution text round trip read_init(write S) = S holds for all complete route sets. The model is tied to /repo on every '
                  'run: generated instances are printed, read by the real read_solomon/read_lilim/read_tsplib/read_init_solution/write_* and the '
                  'dumped core Problem (jobs, places, demand dimension, fleet, matrix through TransportCost) is diffed against the model evaluated by '
                  'vm_compute and against the abstract instance.')
 MANIFEST_NOTE = ('Trusted: Coq kernel + vm_compute; tokeniser and generators; IEEE sqrt (unrounded distances are checked bit-exactly against '
                  'math.sqrt of the exact squared distance the model computes). Not modelled: Jobs::new / goal construction, i32 overflow of id-1, '
-                 'text outside the generated alphabet. Known finding: Li&Lim sub-jobs lose id and demand.')
+                 'text outside the generated alphabet. Finding C13-F1 (Li&Lim sub-jobs lost id and demand) was repaired in /repo commit 164f50b; '
+                 'its corpus case and two mutants keep it detectable.')
 MANIFEST_TECHNIQUE = 'Coq proof over executable model + vm_compute differential correspondence with the Rust implementation'
